@@ -90,7 +90,7 @@ fn fit_and_read(x: &DenseMatrix<f64>, y: &Vec<f64>, cfg: &Cfg, site: &str, what:
 const SCALES: [i32; 2] = [-3, 5];
 
 /// One execution: fit, judge, fit again, fit on rescaled features.
-fn exec_case(d: &Data, cfg: &Cfg) {
+fn exec_case(d: &Data, cfg: &Cfg, full: bool) {
     let ic = classify(d);
     let comp = cfg.model.comp();
     let site = |clause: &str| format!("{}.{}:{}", comp, clause, ic.name);
@@ -129,14 +129,16 @@ fn exec_case(d: &Data, cfg: &Cfg) {
     let judged = judge(&tree, d, cfg, &ic, &mut predict);
 
     // ---- fitted twice => identical model
-    if let Some((_, bytes2, _)) = fit_and_read(&x, &d.y, cfg, &site("fit"), &what) {
+    if !full {
+        mc::count("base_fit_only");
+    } else if let Some((_, bytes2, _)) = fit_and_read(&x, &d.y, cfg, &site("fit"), &what) {
         if bytes2 != bytes {
             mc::violation(site("deterministic"), format!("{}: two fits on the same rows give different serialised models", what()));
         }
     }
 
     // ---- features multiplied by a positive power of two => same tree, thresholds scaled exactly
-    for k in SCALES {
+    for k in SCALES.iter().copied().filter(|_| full) {
         let s = 2f64.powi(k);
         let xs: Vec<Vec<f64>> = d.x.iter().map(|r| r.iter().map(|v| v * s).collect()).collect();
         let xm = DenseMatrix::from_2d_vec(&xs);
@@ -241,7 +243,7 @@ fn run_lattice(job: &Job, seed: u64) {
     let map = data::LABEL_MAPS[job.u("map") % data::LABEL_MAPS.len()];
     let Some(y) = choose_y(model, n, &data::y_alphabet(seed), &map) else { return };
     let x: Vec<Vec<f64>> = (0..n).map(|_| (0..p).map(|_| xa[mc::choose(3)]).collect()).collect();
-    exec_case(&Data { x, y, family: String::new() }, &cfg);
+    exec_case(&Data { x, y, family: String::new() }, &cfg, !job.b("base_only"));
 }
 
 fn choose_perm(n: usize) -> Vec<usize> {
@@ -262,7 +264,7 @@ fn run_perm(job: &Job, seed: u64) {
             x[i][j] = data::rank_value(seed, perm[i]);
         }
     }
-    exec_case(&Data { x, y, family: String::new() }, &cfg);
+    exec_case(&Data { x, y, family: String::new() }, &cfg, !job.b("base_only"));
 }
 
 const SORT_CFGS: [(i64, i64, i64); 3] = [(0, 1, 0), (0, 2, 4), (2, 3, 2)];
@@ -286,13 +288,13 @@ fn run_sorttree(job: &Job, seed: u64) {
             (true, _) => data::LABEL_MAPS[1][(i * 7 % 5) % 3],
         })
         .collect();
-    exec_case(&Data { x, y, family: String::new() }, &cfg);
+    exec_case(&Data { x, y, family: String::new() }, &cfg, !job.b("base_only"));
 }
 
 fn run_struct(job: &Job, seed: u64, thorough: bool) {
     let model = model_of(job.s("model"));
     let (n, p) = (job.u("n"), job.u("p"));
-    let cfg = if thorough { cfg_of(job, model, &ST_DEPTH_T, &ST_MSL_T, &ST_MSS_T) } else { cfg_of(job, model, &ST_DEPTH_Q, &ST_MSL_Q, &ST_MSS_Q) };
+    let cfg = if job.s("grid") == "fine" { cfg_of(job, model, &ST_DEPTH_T, &ST_MSL_T, &ST_MSS_T) } else { cfg_of(job, model, &ST_DEPTH_Q, &ST_MSL_Q, &ST_MSS_Q) };
     let start = mc::choose(data::N_COLS);
     let x: Vec<Vec<f64>> = (0..n).map(|i| (0..p).map(|j| data::col(start + j, n, i, seed)).collect()).collect();
     let cols: Vec<&str> = (0..p).map(|j| data::COL_NAMES[(start + j) % data::N_COLS]).collect();
@@ -305,7 +307,7 @@ fn run_struct(job: &Job, seed: u64, thorough: bool) {
         ((0..n).map(|i| data::y_reg(yk, n, i, seed)).collect(), data::YREG_NAMES[yk].to_string())
     };
     let family = format!("structured features {:?}, targets {}, seed {}", cols, yname, seed % 8);
-    exec_case(&Data { x, y, family }, &cfg);
+    exec_case(&Data { x, y, family }, &cfg, true);
 }
 
 /// The pre-sorting mechanism itself: every vector over a four-letter alphabet.
@@ -387,12 +389,15 @@ impl Harness for C05 {
             jobs.push(lat(format!("lat-reg-p1-n{}", n), "int", "reg", 1, n, 0, &[]));
             for m in &MODELS[1..] {
                 for map in 0..data::LABEL_MAPS.len() {
+                    if !t && n == 4 && map % 2 == 1 {
+                        continue;
+                    }
                     jobs.push(lat(format!("lat-{}-p1-n{}-labels{}", m, n, map), "int", m, 1, n, map, &[]));
                 }
             }
         }
         // ---- three adjacent doubles
-        let ulp_max = if t { 5 } else { 4 };
+        let ulp_max = if t { 5 } else { 3 };
         for n in 2..=ulp_max {
             for m in MODELS {
                 jobs.push(lat(format!("ulp-{}-p1-n{}", m, n), "ulp", m, 1, n, 1, &[]));
@@ -420,29 +425,44 @@ impl Harness for C05 {
                 jobs.push(Job::new(format!("perm-{}-p2-n{}", m, n), json!({"kind": "perm", "model": m, "p": 2, "n": n, "map": 1})));
             }
         }
+        // ---- every column of n >= 8 rows over four letters (sort regime), full tree oracle
+        let smax = if t { 10 } else { 8 };
+        for n in 8..=smax {
+            for m in if t { &MODELS[..] } else { &MODELS[..2] } {
+                for first in 0..4 {
+                    jobs.push(Job::new(format!("sorttree-{}-n{}-first{}", m, n, first), json!({"kind": "sorttree", "model": m, "n": n, "first": first})));
+                }
+            }
+        }
+
         // ---- structured families (n = 8..150)
         let (ns, ps): (&[usize], &[usize]) = if t { (&[8, 9, 10, 11, 12, 13, 16, 17, 23, 32, 40, 64, 100, 150], &[1, 2, 3, 4, 5, 6]) } else { (&[8, 11, 16, 23, 40], &[1, 2, 3, 6]) };
         for &n in ns {
             for &p in ps {
                 for m in MODELS {
-                    if t && n >= 32 {
+                    if t && n >= 64 {
+                        // the coarse configuration grid, one job per depth setting
+                        for d in ST_DEPTH_Q {
+                            jobs.push(Job::new(format!("struct-{}-n{}-p{}-depth{}", m, n, p, d), json!({"kind": "struct", "model": m, "n": n, "p": p, "depth": d, "grid": "coarse"})));
+                        }
+                    } else if t && n >= 23 {
                         for d in ST_DEPTH_T {
-                            jobs.push(Job::new(format!("struct-{}-n{}-p{}-depth{}", m, n, p, d), json!({"kind": "struct", "model": m, "n": n, "p": p, "depth": d})));
+                            jobs.push(Job::new(format!("struct-{}-n{}-p{}-depth{}", m, n, p, d), json!({"kind": "struct", "model": m, "n": n, "p": p, "depth": d, "grid": "fine"})));
                         }
                     } else {
-                        jobs.push(Job::new(format!("struct-{}-n{}-p{}", m, n, p), json!({"kind": "struct", "model": m, "n": n, "p": p})));
+                        jobs.push(Job::new(format!("struct-{}-n{}-p{}", m, n, p), json!({"kind": "struct", "model": m, "n": n, "p": p, "grid": if t { "fine" } else { "coarse" }})));
                     }
                 }
             }
         }
         // ---- larger lattices: one job per (model, depth, msl) [and first letters]
-        let mut big = |name: &str, kind: &str, p: usize, n: usize, map: usize, split_mss: bool| {
+        let mut big = |name: &str, kind: &str, p: usize, n: usize, map: usize, split_mss: bool, base_only: bool| {
             for m in MODELS {
                 for d in LAT_DEPTH {
                     for l in LAT_MSL {
                         let mss_list: Vec<Option<i64>> = if split_mss { LAT_MSS.iter().map(|v| Some(*v)).collect() } else { vec![None] };
                         for s in mss_list {
-                            let mut params = json!({"kind": kind, "alpha": "int", "model": m, "p": p, "n": n, "map": map, "depth": d, "msl": l});
+                            let mut params = json!({"kind": kind, "alpha": "int", "model": m, "p": p, "n": n, "map": map, "depth": d, "msl": l, "base_only": base_only});
                             let mut nm = format!("{}-{}-p{}-n{}-depth{}-msl{}", name, m, p, n, d, l);
                             if let Some(s) = s {
                                 params["mss"] = json!(s);
@@ -454,26 +474,17 @@ impl Harness for C05 {
                 }
             }
         };
-        big("lat", "lat", 1, 5, 2, false);
-        big("lat", "lat", 2, 3, 1, false);
-        big("perm", "perm", 1, 5, 1, false);
+        // (quick: these bulk jobs fit and judge only; refit / rescaled fits are enumerated over every other job)
+        big("lat", "lat", 1, 5, 2, false, !t);
+        big("lat", "lat", 2, 3, 1, false, !t);
+        big("perm", "perm", 1, 5, 1, false, !t);
         if t {
-            big("lat", "lat", 1, 6, 1, false);
-            big("perm", "perm", 1, 6, 2, false);
-            big("perm", "perm", 2, 4, 2, false);
-            big("lat", "lat", 2, 4, 2, true);
-            big("lat", "lat", 1, 7, 2, true);
+            big("lat", "lat", 1, 6, 1, false, true);
+            big("perm", "perm", 1, 6, 2, false, true);
+            big("perm", "perm", 2, 4, 2, false, true);
+            big("lat", "lat", 2, 4, 2, true, true);
+            big("lat", "lat", 1, 7, 2, true, true);
         }
-        // ---- every column of n >= 8 rows over four letters (sort regime), full tree oracle
-        let smax = if t { 10 } else { 8 };
-        for n in 8..=smax {
-            for m in MODELS {
-                for first in 0..4 {
-                    jobs.push(Job::new(format!("sorttree-{}-n{}-first{}", m, n, first), json!({"kind": "sorttree", "model": m, "n": n, "first": first})));
-                }
-            }
-        }
-
         for j in jobs.iter_mut() {
             j.params["seed"] = json!(seed % 8);
             j.params["thorough"] = json!(t);
@@ -506,12 +517,12 @@ impl Harness for C05 {
                 "lattice_p2": format!("every x in A^(2n), y in B^n, n = 2..{}", if t { 4 } else { 3 }),
                 "distinct_values": format!("every permutation of n distinct values per feature x every y: p=1 n = 2..{}, p=2 n = 2..{}", if t { 6 } else { 5 }, if t { 4 } else { 3 }),
                 "adjacent_doubles": format!("every x over {{1+1ulp,1+2ulp,1+3ulp}}^n, n = 2..{} (p=1){}", ulp_max, if t { ", n = 2..3 (p=2)" } else { "" }),
-                "sort_regime": format!("every column over a 4-letter alphabet, n = 8..{}, 2 target patterns, 3 configurations", smax),
+                "sort_regime": format!("every column over a 4-letter alphabet, n = 8..{}, 2 target patterns, 3 configurations, models {}", smax, if t { "all four" } else { "regressor + gini" }),
                 "structured": format!("n in {:?} x p in {:?} x 10 feature-column rotations x target patterns (4 regression; 3 x k classes) x configuration grid", ns, ps),
                 "configurations_lattice": "criterion {gini,entropy,classification error} x max_depth {None,1,2,3} x min_samples_leaf {1,2,3} x min_samples_split {0,2,3,4}",
-                "configurations_structured": if t { "max_depth {None,1,2,3,4,5,8} x msl {1..5} x mss {0,1,2,3,5,8}" } else { "max_depth {None,2,3,8} x msl {1,2,5} x mss {0,2,8}" },
+                "configurations_structured": if t { "n < 64: max_depth {None,1,2,3,4,5,8} x msl {1..5} x mss {0,1,2,3,5,8}; n >= 64: max_depth {None,2,3,8} x msl {1,2,5} x mss {0,2,8}" } else { "max_depth {None,2,3,8} x msl {1,2,5} x mss {0,2,8}" },
                 "argsort": format!("every vector over a 4-letter alphabet, n = 1..{}", amax),
-                "per_case": "fit, predict (training rows + rows at/next to every threshold), refit, fit on features x 2^-3 and x 2^5",
+                "per_case": format!("fit, predict (training rows + rows at/next to every threshold), refit, fit on features x 2^-3 and x 2^5; the bulk lattice jobs ({}) fit, predict and judge only", if t { "p=1 n=6,7; p=2 n=4; permutations p=1 n=6, p=2 n=4" } else { "p=1 n=5; p=2 n=3; permutations p=1 n=5" }),
             }),
         }
     }
